@@ -559,4 +559,98 @@ Section Trace.
         unfold urgent, child_urgent in U. rewrite Ec in U.
         destruct (negb (started s)), (sq_urgent (store s)); discriminate U.
   Qed.
+
+  (* ---- never idle with a backlog; back-to-back transmissions ---- *)
+  (* scanning forward: the clock does not move before the next transmission starts, and it starts at t0 *)
+  Fixpoint starts_at (t0 : Q) (tr : list (tev S)) : Prop :=
+    match tr with
+    | [] => True
+    | (a, _, s1) :: t =>
+        match a with
+        | FChildInit => now s1 = t0
+        | FAdvance _ => False
+        | _ => starts_at t0 t
+        end
+    end.
+
+  Lemma perm_nonempty (A : Type) (l l' : list A) : Permutation l' l -> l <> [] -> l' <> [].
+  Proof. intros P H E. subst l'. apply Permutation_nil in P. contradiction. Qed.
+
+  Theorem srv_no_idle_backlog_gen acts : forall s s' tr,
+    Reach s -> puts_conf acts -> runS s acts = Some (s', tr) ->
+    held S s <> [] -> (forall e dl, chl s <> CTx e dl) -> starts_at (now s) tr.
+  Proof.
+    induction acts as [|a rest IH]; intros s s' tr R C H Hh NT.
+    - cbn in H. injection H as _ <-. exact I.
+    - apply run_cons in H as (s1 & o & tr' & A & H & ->). apply puts_conf_cons in C as (Ca & Cr).
+      assert (R1 : Reach s1) by (eapply reachS; eauto).
+      specialize (IH _ _ _ R1 Cr H). pose proof (step_held S rate _ _ _ _ A) as SH.
+      cbn [starts_at].
+      destruct a.
+      + (* FPut *) destruct SH as (E & _ & _).
+        assert (En : now s1 = now s) by (act_inv A; reflexivity).
+        assert (Ec : chl s1 = chl s) by (act_inv A; reflexivity).
+        rewrite <- En. apply IH; [rewrite E; intros F; apply app_eq_nil in F as (_ & F); discriminate|].
+        intros e dl. rewrite Ec. apply NT.
+      + destruct SH as (P & _ & _).
+        assert (En : now s1 = now s) by (act_inv A; reflexivity).
+        assert (Ec : chl s1 = chl s) by (act_inv A; reflexivity).
+        rewrite <- En. apply IH; [eapply perm_nonempty; eauto|]. intros e dl. rewrite Ec. apply NT.
+      + destruct SH as (P & _ & _).
+        assert (En : now s1 = now s) by (act_inv A; reflexivity).
+        assert (Ec : chl s1 = chl s) by (act_inv A; reflexivity).
+        rewrite <- En. apply IH; [eapply perm_nonempty; eauto|]. intros e dl. rewrite Ec. apply NT.
+      + destruct SH as (P & _ & _).
+        assert (En : now s1 = now s) by (act_inv A; reflexivity).
+        assert (Ec : exists e, chl s1 = CInit e) by (act_inv A; eexists; reflexivity).
+        rewrite <- En. apply IH; [eapply perm_nonempty; eauto|]. intros e dl. destruct Ec as (e' & ->). discriminate.
+      + act_inv A. reflexivity.
+      + exfalso. destruct SH as (e & dl & Ec & _). eapply NT; eauto.
+      + destruct SH as (e & _ & _ & P & _).
+        assert (En : now s1 = now s) by (act_inv A; reflexivity).
+        assert (Ec : chl s1 = CNone) by (act_inv A; reflexivity).
+        rewrite <- En. apply IH; [eapply perm_nonempty; eauto|]. intros e' dl. rewrite Ec. discriminate.
+      + act_inv A;
+          (match goal with U : urgent s = false |- _ =>
+             destruct (srv_work_conserving S rate rate_pos st0 conf cls D s R U) as [(e' & dl' & Ec' & _)|E] end;
+           [first [congruence | (eapply NT; reflexivity)]|contradiction]).
+  Qed.
+
+  (* if a packet is held right after any step of a run and no transmission is in progress, the next
+     transmission starts before the clock moves, i.e. in that very instant *)
+  Theorem srv_no_idle_backlog acts s' tr :
+    puts_conf acts -> runS (srv0 0 st0) acts = Some (s', tr) ->
+    forall tr1 a o s1 tr2, tr = tr1 ++ (a, o, s1) :: tr2 ->
+    held S s1 <> [] -> (forall e dl, chl s1 <> CTx e dl) -> starts_at (now s1) tr2.
+  Proof.
+    intros C H tr1. revert acts s' tr C H. generalize (reach0 S rate st0 conf). generalize (srv0 0 st0) as s.
+    induction tr1 as [|ev tr1 IH]; intros s R acts s' tr C H a o s1 tr2 E Hh NT.
+    - destruct acts as [|a0 rest]; [cbn in H; injection H as _ <-; discriminate|].
+      apply run_cons in H as (s2 & o2 & tr' & A & H & ->). apply puts_conf_cons in C as (Ca & Cr).
+      cbn [app] in E. injection E as <- <- <- <-.
+      eapply srv_no_idle_backlog_gen; [eapply reachS; eauto|exact Cr|exact H|exact Hh|exact NT].
+    - destruct acts as [|a0 rest]; [cbn in H; injection H as _ <-; discriminate|].
+      apply run_cons in H as (s2 & o2 & tr' & A & H & ->). apply puts_conf_cons in C as (Ca & Cr).
+      cbn [app] in E. injection E as _ E.
+      eapply (IH s2); [eapply reachS; eauto|exact Cr|exact H|exact E|exact Hh|exact NT].
+  Qed.
+
+  (* in particular after the end of a transmission: back-to-back service *)
+  Corollary srv_back_to_back acts s' tr :
+    puts_conf acts -> runS (srv0 0 st0) acts = Some (s', tr) ->
+    forall tr1 o s1 tr2, tr = tr1 ++ (FChildTimer, o, s1) :: tr2 -> held S s1 <> [] -> starts_at (now s1) tr2.
+  Proof.
+    intros C H tr1 o s1 tr2 E Hh. eapply srv_no_idle_backlog; eauto.
+    (* right after FChildTimer the child is CEnded *)
+    assert (Hc : exists e, chl s1 = CEnded e).
+    { clear Hh. revert acts s' tr C H E. generalize (srv0 0 st0) as s.
+      induction tr1 as [|ev tr1 IH]; intros s acts s' tr C H E.
+      - destruct acts as [|a0 rest]; [cbn in H; injection H as _ <-; discriminate|].
+        apply run_cons in H as (s2 & o2 & tr' & A & H & ->). cbn [app] in E. injection E as -> -> -> ->.
+        act_inv A. eexists. reflexivity.
+      - destruct acts as [|a0 rest]; [cbn in H; injection H as _ <-; discriminate|].
+        apply run_cons in H as (s2 & o2 & tr' & A & H & ->). apply puts_conf_cons in C as (Ca & Cr).
+        cbn [app] in E. injection E as _ E. eapply (IH s2); eauto. }
+    destruct Hc as (e & ->). discriminate.
+  Qed.
 End Trace.
